@@ -83,8 +83,18 @@ def run_c07(t, tier, res):
             oopts["coverage"] = 0.5
         tr_old = trainer.train(old, oopts, uuid_seed=5, filename="old.txt")
         res.faults["retrain_over_stale_ruleset"] += 1 if tr_old.ok else 0
-    tr = trainer.train(pws, opts)
-    res.sample = {"passwords": pws[:14], "n": len(pws), "opts": opts}
+    raw = None
+    if t.chance(1, 2):
+        lines = []
+        for pw in pws:
+            if t.chance(1, 2):
+                lines.append(("$HEX[" + pw.encode(enc, "surrogateescape").hex() + "]").encode("ascii"))
+            else:
+                lines.append(pw.encode(enc, "surrogateescape"))
+        raw = b"\n".join(lines) + b"\n"
+        res.stats["hex_route_lists"] += 1
+    tr = trainer.train(pws, opts, raw=raw)
+    res.sample = {"passwords": pws[:14], "n": len(pws), "opts": opts, "some_lines_as_hex": raw is not None}
     if not tr.ok:
         res.rejected = "trainer_failed"
         return
@@ -202,7 +212,7 @@ def run_c07(t, tier, res):
 # ---------------------------------------------------------------------------
 # C19
 
-FORBIDDEN = ["\t", " ", "\u0085"] + [chr(c) for c in range(0x20)]
+FORBIDDEN = ["\t", "\u2028", "\u0085", "\u2029"] + [chr(c) for c in range(0x20)]
 
 
 def is_hex_literal(p):
@@ -231,21 +241,27 @@ def junk_line(t, enc, style, errs):
     """a line the reader must skip; errs[0] accumulates how many encoding errors it must count for it"""
     jk = JUNK[t.draw(len(JUNK))]
     counted = 0
-    k = t.draw(6)
+    k = t.draw(7)
     if k == 0 and enc in ("utf-8", "ascii"):
-        jk = b"bad\xff\xfebytes"
+        jk = b"bad\xff\xfebytes"          # undecodable bytes: skipped AND counted
         counted = 1
     elif k == 1:
-        jk = b"$HEX[zz]"
-        counted = 1
+        jk = b"$HEX[zz]"                   # not hex at all: skipped; how it is counted is the tool's convention
+        counted = None
+    elif k == 2:
+        # forbidden content smuggled in through the hex route: tab, LF, C0 control, U+2028, U+0085 inside the payload
+        payload = t.choice(["ab\tcd", "ab\ncd", "x\x01y", "\x1b[0m", "a\rb"]).encode("ascii")
+        if enc == "utf-8" and t.chance(1, 3):
+            payload = t.choice(["a\u2028b", "a\u0085b", "line\u2029end"]).encode("utf-8")
+        jk = b"$HEX[" + payload.hex().encode("ascii") + b"]"
     if style == "count":
         if jk.strip() and t.chance(1, 2):
-            n = t.between(1, 3)
-            jk = str(n).encode() + b" " + jk
-            counted *= n
-        else:
-            counted = 0            # no numeric prefix: the line is not a record at all
-    errs[0] += counted
+            jk = str(t.between(1, 3)).encode() + b" " + jk
+        counted = None                    # whether a count prefix multiplies an error is the tool's convention: not judged
+    if counted is None:
+        errs[0] = None
+    elif errs[0] is not None:
+        errs[0] += counted
     return jk
 
 
@@ -305,6 +321,14 @@ def content_fails_anyway(pws, opts):
     safe = [p for p in pws if not is_hex_literal(p)]
     tr = trainer.train(safe, o, rule="V_probe", uuid_seed=3, filename="probe.txt")
     return bool(tr.exc)
+
+
+def have_chardet():
+    try:
+        import chardet.universaldetector   # noqa  (without it the tool asks a question on stdin)
+        return True
+    except ImportError:
+        return False
 
 
 def autodetect_consistency(t, L, enc, wr):
@@ -412,7 +436,7 @@ def run_c19(t, tier, res):
             res.violate("C19", "password_count_wrong", {"variant": name, "config": cfg.get("TRAINING_DATASET_DETAILS",
                                                                                           "number_of_passwords_in_set"), "expected": len(L)})
             return
-        if cfg.get("TRAINING_DATASET_DETAILS", "number_of_encoding_errors") != str(want_errs):
+        if want_errs is not None and cfg.get("TRAINING_DATASET_DETAILS", "number_of_encoding_errors") != str(want_errs):
             res.violate("C19", "encoding_error_count_wrong", {"variant": name, "config": cfg.get("TRAINING_DATASET_DETAILS",
                                                                                                 "number_of_encoding_errors"),
                                                               "expected": want_errs, "junk_lines": n_junk})
@@ -429,7 +453,7 @@ def run_c19(t, tier, res):
             return
     # encoding autodetection (trainer.py without --encoding) must not depend on the line-end convention or on
     # whether passwords are written plain or as $HEX[]: the same bytes reach the detector
-    if not res.violations and t.chance(1, 2):
+    if not res.violations and t.chance(1, 2) and have_chardet():
         prob = autodetect_consistency(t, L, enc, wr=scratch.worker_root())
         res.stats["autodetect_comparisons"] += 1
         if prob:
